@@ -102,6 +102,10 @@ def run(cx):
                 CP.has_cond(c, f'(is (call *project_with_tol (param self) (index (param points) {I}) (param max_dist) (param max_angle) (param transform)) Some)', True) and \
                 len([1 for a, p in c['conds']]) == 1
         cx.ob('GUARD', 'Mesh::indices_in_tol', ok, 'index i is reported exactly when project_with_tol(points[i], max_dist, max_angle, transform) is Some', where=b.file)
+    # length_along of a closest point is read from the length table built by from_points: it must be the running sum over the STORED vertices (shared with C01)
+    from rules.C01 import from_points_rules
+    from_points_rules(cx, 'geom2::curve2::Curve2', 'Curve2', '2D')
+    from_points_rules(cx, 'geom3::curve3::Curve3', 'Curve3', '3D')
     # the two consumers of the mesh projection that add their own geometry on top of it (rules shared with C16 / C20)
     from rules.C16 import deviation_fallback_rules
     from rules.C20 import uv_with_tol_rule, uv_lookup_rules
